@@ -58,6 +58,39 @@ theorem result_no_marker (env : Env N) (ctx : Ctx N) (cur : Row N) (sel : List (
     (h : evalSel env ctx cur sel [] = .ok out) : lookup? "<-" out = none :=
   Genql.C02.select_no_marker env ctx cur sel out hw hk h
 
+/-- `SELECT * FROM dual` -/
+def starDual : Query N := .select [] false [.star] (.table ["dual"] "" "dual") (.bool true) [] (.bool true) [] none none
+
+/-- (c) **the scalar sub-query `(SELECT * FROM dual)`** — which reads the current row WITH its navigation marker —
+    returns a copy of the row without the marker: the star projection removes it before the value is stored -/
+theorem subq_star_dual (env : Env N) (ctx : Ctx N) (cur : Row N) (hd : lookup? "dual" cur = none) :
+    evalExpr env ctx cur (.subq starDual) =
+      .ok (.v (.obj (copyInto [] (delKey "<-" (withMarker cur ctx.data))))) := by
+  have hne : ("dual" : String) ≠ "<-" := by decide
+  have hget : Val.get (withMarker cur ctx.data) "dual" = .null := by
+    unfold Val.get withMarker
+    rw [lookup?_setKey_other hne, hd]
+  simp only [starDual, evalExpr, prepare, evalCtes, evalFrom, cteNames, List.append_nil, List.not_mem_nil, if_false,
+    Genql.readPath_single, hget, if_true, bind, Except.bind, pure, Except.pure, isAllAggr, Bool.false_and,
+    selectRowsWith, mapE, evalSel, List.head?_cons, Option.getD_some, Bool.false_eq_true]
+
+theorem subq_star_dual_no_marker (env : Env N) (ctx : Ctx N) (cur : Row N) (hd : lookup? "dual" cur = none) :
+    ∃ fs : Row N, evalExpr env ctx cur (.subq starDual) = .ok (.v (.obj fs)) ∧ lookup? "<-" fs = none := by
+  refine ⟨_, subq_star_dual env ctx cur hd, ?_⟩
+  rw [Genql.C02.lookup?_copyInto]
+  have : lookup? "<-" (delKey "<-" (withMarker cur ctx.data)).reverse = none := by
+    have h := Genql.C02.hasKey_reverse "<-" (delKey "<-" (withMarker cur ctx.data))
+    have h2 := Genql.C02.lookup?_delKey_same "<-" (withMarker cur ctx.data)
+    cases hl : lookup? "<-" (delKey "<-" (withMarker cur ctx.data)).reverse with
+    | none => rfl
+    | some v =>
+      exfalso
+      have : Genql.C02.hasKey "<-" (delKey "<-" (withMarker cur ctx.data)).reverse = true := by
+        simp [Genql.C02.hasKey, hl]
+      rw [h] at this
+      simp [Genql.C02.hasKey, h2] at this
+  rw [this]; rfl
+
 /-- evaluation is a function of (document, query): an equal input gives an equal result -/
 theorem deterministic (env : Env N) (d1 d2 : Row N) (sc : Scope) (q : Query N) (h : d1 = d2) :
     execQuery env d1 sc q = execQuery env d2 sc q := by rw [h]
